@@ -49,7 +49,7 @@ func guard(f func() string) (out string) {
 func streamNote() {
 	s, done := openStream("note")
 	defer done()
-	maxN := pick(64, 200)
+	maxN := pick(140, 300)
 	for n := 0; n <= maxN; n++ {
 		for _, q := range append([]note.DegreeName{note.UnknownDegree}, qualities...) {
 			d := note.Degree{Value: uint(n), Name: q}
